@@ -1,6 +1,7 @@
 import Pycoin.Proofs.Ripemd160
 import Pycoin.Proofs.Murmur3
 import Pycoin.Proofs.Bloom
+import Pycoin.Proofs.HashHistory
 import Pycoin.Model.HashPy
 import Pycoin.Model.Bloom
 import Pycoin.Spec.Murmur3
@@ -174,5 +175,31 @@ example : ∃ f f', Bloom.new 3 5 0 = .ok f ∧ Bloom.addItem f [1, 2, 3] = .ok 
   · have := hc [1, 2, 3] (by simp)
     rw [hn, ht] at this
     exact this
+
+
+/-! ## histories on reused buffers -/
+
+/-- **C19.digest_history** — in any history of calls (`ripemd160(buf).digest()`, `hash160(buf)`,
+`contrib.ripemd160(buf)`, `double_sha256`, `murmur3`, Bloom-filter adds and queries) interleaved with rebinding and
+in-place overwriting of the argument buffers, under every implementation choice, every answer is the one obtained
+with the standard digest functions applied to the contents the buffer has *at that step*: nothing is remembered
+from earlier calls.  `GoodStep`/`GoodState`: buffers are byte strings (`bytes`, `bytearray`) below 2^61 bytes. -/
+theorem C19_digest_history (impl : HashPy.Impl) (st : History.State) (steps : List History.Step)
+    (hs : History.GoodState st) (hg : ∀ s ∈ steps, History.GoodStep s) :
+    History.exec (History.implFns impl) st steps = History.exec History.specFns st steps :=
+  History.exec_agree impl steps st hs hg
+
+/-- the instance the seeded memo defect violates: hash a bytearray, overwrite it in place, hash it again -/
+example (impl : HashPy.Impl) (a b : Bytes) (ha : a.length < 2 ^ 61) (hb : b.length < 2 ^ 61) :
+    History.exec (History.implFns impl) History.empty [.new 0 .bytearray a, .rmd 0, .set 0 b, .rmd 0] =
+      [.ok .unit, .ok (.bytes (ripemd160 a)), .ok .unit, .ok (.bytes (ripemd160 b))] := by
+  rw [C19_digest_history impl _ _ (by intro p hp; cases hp)
+    (by intro s hs; simp only [List.mem_cons, List.mem_nil_iff, or_false] at hs
+        rcases hs with rfl | rfl | rfl | rfl
+        · exact ⟨by decide, ha⟩
+        · trivial
+        · exact hb
+        · trivial)]
+  rfl
 
 end Pycoin.C19
